@@ -305,6 +305,11 @@ func registerIntrinsics(e *Engine) {
 		return ConstBV(h>>1, 64)
 	}
 	e.intr["time.Unix"] = func(e *Engine, st *State, cc *ssa.CallCommon, a []Value) Value {
+		// the model is int64 nanoseconds since the epoch (years 1678..2262): refuse concrete instants outside it
+		// instead of wrapping around silently (a harness instant in year 2999 made a snooze look expired)
+		if sec := asTerm(a[0]); sec.IsConst() && (sec.Signed() > 9223372036 || sec.Signed() < -9223372036) {
+			unsupported("time.Unix(%d, ..) is outside the int64-nanosecond time model", sec.Signed())
+		}
 		return mkT(BVBin("bvadd", BVBin("bvmul", asTerm(a[0]), ConstBV(1000000000, 64)), asTerm(a[1])))
 	}
 	e.intr["(time.Time).UTC"] = func(e *Engine, st *State, cc *ssa.CallCommon, a []Value) Value { return a[0] }
